@@ -116,10 +116,12 @@ def entries_for(rng, f, n, explicit=4):
         if n - k > 0:
             segs.append(['bulk', rng.choice([bk, bk_big]), n - k, rng.randint(0, 50000)])
         return segs
+    if f in STRUCT_FAMILIES:
+        return struct_entries(rng, f, n)
     if f in W.RAW_FAMILIES:
         if not n:
             return []
-        kind, start = rng.randint(0, (W.FS_KINDS if f in W.FS_FAMILIES else 5) - 1), rng.randint(0, 50000)
+        kind, start = rng.randint(0, (W.FS_KINDS if f in W.FS_FAMILIES else 10 if f == W.LS else 5) - 1), rng.randint(0, 50000)
         # these entries are spelled out in the Coq case: keep the literal below ~25 kB
         size = max(1, len(W.raw_nlri(f, kind, start)))
         return [['rawbulk', f, kind, max(1, min(n, 25000 // size)), start]]
@@ -336,7 +338,453 @@ def gen_cases(rng, tier):
                     else:
                         cases.append(mk(l, r, ['unreach', f, es], ['unreach', 'sweep']))
     two_l, two_r = caps_pair([W.IPV4, W.IPV6, W.IPV6_VPN, W.IPV6_MPLS, W.IPV4_MPLS, W.IPV4_VPN], as4=(False, True))
+    cases += audit_cases(rng)
+    cases += struct_audit_cases(rng)
     for m in bad:
         cases.append(mk(two_l, two_r, m, ['malformed']))
         cases.append(mk(*caps_pair([W.IPV4, W.IPV6, W.IPV6_VPN, W.IPV6_MPLS, W.IPV4_MPLS, W.IPV4_VPN]), m, ['malformed']))
     return cases
+
+
+# ======================================================================================
+# Audit classes: ENUMERATED ON EVERY RUN (both tiers), one class per clause of the property
+# text / branch of the anchored code, with the values on both sides of every comparison.
+# ======================================================================================
+A0 = [[0, 1, 0, 0, ['b', []]], [1, 2, 0, 0, ['b', seg(2, [65001])]]]
+
+def _opaque(n, code=222, flags=0xC0, seed=3):
+    return [2, code, flags, 0, ['pat', n, seed]]
+
+def _v4_32(i): return [0, ['v4', 32, [10] + W.be32(i)[1:]]]
+def _v6_128(i): return [0, ['v6', 128, [32, 1, 13, 184] + [0] * 8 + W.be32(i)]]
+
+def audit_cases(rng):
+    cs = []
+    def add(l, r, m, *tags):
+        cs.append(mk(l, r, m, ['audit'] + list(tags)))
+
+    # ---- a1. exact-fit sweep: for each wire form, the attribute pad runs through one whole entry size, so
+    # the last entry of the first frame ends exactly at max-1, max, and would end at max+1
+    forms = [('v4leg', W.IPV4, NH4, 6, 5), ('v6mp', W.IPV6, NH6, 7, 17), ('vpn6', W.IPV6_VPN, NH6, 8, 25), ('lab4', W.IPV4_MPLS, NH4, 4, 8)]
+    for name, f, nh, kind, esize in forms:
+        for ap in (0, 3):
+            for pad in range(0, esize + (4 if ap else 0) + 1):
+                l, r = caps_pair([f, W.IPV4], lmode=ap, rmode=ap, ext=(False, False))
+                n = 2 * (4096 // (esize + (4 if ap else 0))) // 1 // 2 + 40
+                attrs = A0 + [_opaque(300 + pad)]
+                add(l, r, ['reach', f, nh, attrs, [['bulk', kind, n, 100]]], 'fit_sweep', 'fit_' + name)
+    # withdrawals have no attributes: a first explicit entry of 1..5 octets shifts the rest
+    for ap in (0, 3):
+        for m in (0, 8, 16, 24, 32):
+            l, r = caps_pair([W.IPV4, W.IPV6], lmode=ap, rmode=ap, ext=(False, False))
+            add(l, r, ['unreach', W.IPV4, [['x', [[7, ['v4', m, [10, 1, 2, 3][:(m + 7) // 8] + [0] * (4 - (m + 7) // 8)]]]], ['bulk', 6, 900, 5]]], 'fit_sweep', 'fit_v4leg_unreach')
+        for m in range(0, 129, 8):
+            l, r = caps_pair([W.IPV4, W.IPV6], lmode=ap, rmode=ap, ext=(False, False))
+            a = ([32, 1, 13, 184] + [1] * 12)[:(m + 7) // 8] + [0] * (16 - (m + 7) // 8)
+            add(l, r, ['unreach', W.IPV6, [['x', [[7, ['v6', m, a]]]], ['bulk', 7, 300, 5]]], 'fit_sweep', 'fit_v6mp_unreach')
+    # extended message: the same at 65535 (legacy reach and MP unreach)
+    for pad in range(0, 6):
+        l, r = caps_pair([W.IPV4, W.IPV6], ext=(True, True))
+        add(l, r, ['reach', W.IPV4, NH4, A0 + [_opaque(60000 + pad)], [['bulk', 6, 1200, 9]]], 'fit_sweep', 'fit_ext65535')
+    # ---- a2. attributes: a frame that holds the attributes and exactly one / zero entries (4096 and 65535)
+    for f, nh, base in ((W.IPV4, NH4, 4096 - 23 - 7 - 5 - 14), (W.IPV6, NH6, 4096 - 23 - 25 - 17 - 14)):
+        for d in range(-3, 4):
+            l, r = caps_pair([W.IPV4, W.IPV6], ext=(False, False))
+            add(l, r, ['reach', f, nh, A0 + [_opaque(base - 4 + d)], [['x', [_v4_32(1) if f == W.IPV4 else _v6_128(1)]]]], 'attr_room_boundary')
+    # ---- a3. attribute length forms: value sizes around the extended-length switch, stored flags with / without
+    # the extended bit, every attribute code the code knows with a legal value
+    for n in (0, 1, 254, 255, 256, 257):
+        for fl in (0xC0, 0xD0, 0xE0, 0x80, 0x90):
+            l, r = caps_pair([W.IPV4])
+            add(l, r, ['reach', W.IPV4, NH4, A0 + [_opaque(n, flags=fl)], [['x', [_v4_32(2)]]]], 'attr_len_switch')
+        if n % 4 == 0 and n:
+            l, r = caps_pair([W.IPV4])
+            add(l, r, ['reach', W.IPV4, NH4, A0 + [[1, 8, 0, 0, ['pat', n, 1]]], [['x', [_v4_32(2)]]]], 'attr_len_switch')
+    known = [[0, 4, 0, 7, ['b', []]], [0, 5, 0, 100, ['b', []]], [1, 6, 0, 0, ['b', []]], [1, 7, 0, 0, ['b', W.be32(65001) + [192, 0, 2, 9]]],
+             [1, 8, 0, 0, ['b', [255, 255, 255, 1]]], [0, 9, 0, 167772161, ['b', []]], [1, 10, 0, 0, ['b', [10, 0, 0, 1, 10, 0, 0, 2]]],
+             [1, 16, 0, 0, ['b', [0, 2, 253, 232, 0, 0, 0, 100]]], [1, 23, 0, 0, ['b', [0, 8, 0, 4, 1, 0, 0, 0]]], [1, 26, 0, 0, ['b', [1, 0, 11, 0, 0, 0, 0, 0, 0, 0, 5]]],
+             [1, 29, 0, 0, ['b', [4, 2, 0, 1, 9]]], [1, 32, 0, 0, ['b', W.be32(65001) + W.be32(1) + W.be32(2)]], [1, 40, 0, 0, ['b', [1, 0, 7, 0, 0, 0, 0, 0, 0, 5]]]]
+    for a in known:
+        for two in (True, False):
+            l, r = caps_pair([W.IPV4], as4=(two, True))
+            add(l, r, ['reach', W.IPV4, NH4, A0 + [a], [['x', [_v4_32(3)]]]], 'attr_each_code')
+    l, r = caps_pair([W.IPV4])
+    add(l, r, ['reach', W.IPV4, NH4, A0 + known, [['x', [_v4_32(3)]]]], 'attr_each_code')
+    # ---- a4. AS_PATH shapes on both AS widths: segment sizes 1/63/64/127/128/254/255 (the 4-octet value
+    # crosses 255 octets at 64 ASes, the 2-octet one at 127), several segments, AS numbers at the
+    # two-octet boundary in first / last position, AS_TRANS itself, sets and confederation segments
+    for as4 in ((True, True), (False, True)):
+        for n in (1, 63, 64, 126, 127, 128, 254, 255):
+            for asn in (65001, 70000):
+                l, r = caps_pair([W.IPV4], as4=as4)
+                path = seg(2, [asn] + [64512 + k % 100 for k in range(n - 1)])
+                add(l, r, ['reach', W.IPV4, NH4, [A0[0], [1, 2, 0, 0, ['b', path]]], [['x', [_v4_32(4)]]]], 'aspath_segment_size')
+        for asns in ([65534], [65535], [65536], [23456], [65535, 65536], [65536, 65535], [1, 65536, 2], [4294967295], [0]):
+            l, r = caps_pair([W.IPV4], as4=as4)
+            add(l, r, ['reach', W.IPV4, NH4, [A0[0], [1, 2, 0, 0, ['b', seg(2, asns)]]], [['x', [_v4_32(4)]]]], 'aspath_as2_boundary')
+        shapes = [[], seg(1, [65001, 65002]), seg(1, [70000]), seg(2, [65001]) + seg(1, [70000, 65002]) + seg(2, [65003]),
+                  seg(3, [65100]) + seg(2, [65001]), seg(3, [65100]), seg(4, [65100, 65101]) + seg(2, [65001, 65002]),
+                  seg(2, [65001] * 255) + seg(2, [65002] * 255) + seg(2, [70000])]
+        for p in shapes:
+            l, r = caps_pair([W.IPV4], as4=as4)
+            add(l, r, ['reach', W.IPV4, NH4, [A0[0], [1, 2, 0, 0, ['b', p]]], [['x', [_v4_32(4)]]]], 'aspath_shapes')
+        for agg in (0, 65535, 65536, 23456, 4294967295):
+            for path in ([65001], [70000]):
+                l, r = caps_pair([W.IPV4], as4=as4)
+                add(l, r, ['reach', W.IPV4, NH4, [A0[0], [1, 2, 0, 0, ['b', seg(2, path)]], [1, 7, 0, 0, ['b', W.be32(agg) + [192, 0, 2, 9]]]],
+                           [['x', [_v4_32(4)]]]], 'aggregator_boundary')
+    # ---- a5. every prefix length of both address sizes, canonical and with host bits, path ids at the edges
+    for ap in (0, 3):
+        l, r = caps_pair([W.IPV4, W.IPV6], lmode=ap, rmode=ap)
+        v4 = [[[0, 1, 4294967295][m % 3], ['v4', m, W.be32((0xffffffff << (32 - m)) & 0xffffffff if m else 0)]] for m in range(33)]
+        add(l, r, ['reach', W.IPV4, NH4, A0, [['x', v4]]], 'every_mask')
+        add(l, r, ['unreach', W.IPV4, [['x', v4]]], 'every_mask')
+        add(l, r, ['reach', W.IPV4, NH4, A0, [['x', [[1, ['v4', m, [255, 255, 255, 255]]] for m in range(33)]]]], 'every_mask', 'host_bits')
+        for lo in (0, 43, 86):
+            v6 = []
+            for m in range(lo, min(lo + 43, 129)):
+                full = ((1 << 128) - 1) ^ ((1 << (128 - m)) - 1)
+                v6.append([[0, 1, 4294967295][m % 3], ['v6', m, list(full.to_bytes(16, 'big'))]])
+            add(l, r, ['reach', W.IPV6, NH6, A0, [['x', v6]]], 'every_mask')
+            add(l, r, ['unreach', W.IPV6, [['x', v6]]], 'every_mask')
+    # ---- a6. ADD-PATH modes 0..3 on both sides, extended message and AS width on one / both sides: every run
+    import itertools
+    for lm, rm in itertools.product(range(4), range(4)):
+        for f in (W.IPV4, W.IPV6):
+            l, r = caps_pair([W.IPV4, W.IPV6], lmode=lm, rmode=rm)
+            es = [['x', [[5, ['v4', 24, [10, 9, 8, 0]]], [6, ['v4', 8, [11, 0, 0, 0]]]] if f == W.IPV4 else [[5, ['v6', 64, [32, 1, 13, 184] + [0] * 12]]]]]
+            add(l, r, ['reach', f, NH4 if f == W.IPV4 else NH6, A0, es], 'addpath_matrix')
+            add(l, r, ['unreach', f, es], 'addpath_matrix')
+    for e1, e2, a1, a2 in itertools.product((False, True), repeat=4):
+        l, r = caps_pair([W.IPV4, W.IPV6], ext=(e1, e2), as4=(a1, a2))
+        add(l, r, ['reach', W.IPV4, NH4, [A0[0], [1, 2, 0, 0, ['b', seg(2, [70000, 65001])]], _opaque(4080)], [['x', [_v4_32(5)]]]], 'session_matrix')
+    # negotiation corner cases: duplicate / conflicting capabilities, ADD-PATH for a family without MP, one-sided RFC 8950
+    mp4, mp6 = ('mp', W.IPV4), ('mp', W.IPV6)
+    odd = [
+        ([mp4, mp4, ('addpath', [(W.IPV4, 1)]), ('addpath', [(W.IPV4, 3)])], [mp4, ('addpath', [(W.IPV4, 3), (W.IPV4, 1)])]),
+        ([mp4, ('addpath', [(W.IPV6, 3)])], [mp4, ('addpath', [(W.IPV4, 3), (W.IPV6, 3)])]),
+        ([mp4, ('addpath', [(W.IPV4, 3)]), mp4], [mp4, ('addpath', [(W.IPV4, 3)])]),
+        ([mp4, ('enh', [(W.IPV4, 2)])], [mp4]),
+        ([mp4, ('enh', [(W.IPV4, 2)])], [mp4, ('enh', [(W.IPV4, 2)])]),
+        ([mp4, ('enh', [(W.IPV4, 1)])], [mp4, ('enh', [(W.IPV4, 1)])]),
+        ([mp4, mp6, ('enh', [(W.IPV6, 2)])], [mp4, mp6, ('enh', [(W.IPV6, 2)])]),
+        ([mp4, mp6, ('enh', [(W.IPV4_VPN, 2)]), ('mp', W.IPV4_VPN)], [mp4, mp6, ('mp', W.IPV4_VPN), ('enh', [(W.IPV4_VPN, 2)])]),
+        ([mp4, ('as4', 1), ('as4', 2), ('extmsg',), ('extmsg',)], [mp4, ('as4', 3), ('extmsg',)]),
+        ([mp6, mp4], [mp4, mp6]),
+    ]
+    for lc, rc in odd:
+        for nh in (NH4, NH6, NH6LL):
+            add(lc, rc, ['reach', W.IPV4, nh, A0, [['x', [[9, ['v4', 24, [10, 9, 8, 0]]]]]]], 'negotiate_corner')
+        add(lc, rc, ['unreach', W.IPV4, [['x', [[9, ['v4', 24, [10, 9, 8, 0]]]]]]], 'negotiate_corner')
+        add(lc, rc, ['eor', W.IPV4], 'negotiate_corner')
+    # ---- a7. NOTIFICATION: every (code, subcode) the constructor distinguishes, with and without data; data at the frame limit
+    for code in range(0, 9):
+        for sub in range(0, 13):
+            add(std_caps()[0], std_caps()[1], ['notif', code, sub, ['b', []]], 'notif_matrix')
+            add(std_caps()[0], std_caps()[1], ['notif', code, sub, ['b', [code, sub, 7]]], 'notif_matrix')
+    for ext, lim in (((False, False), 4096), ((True, True), 65535)):
+        for d in (-2, -1, 0, 1, 2):
+            l, r = caps_pair([W.IPV4], ext=ext)
+            add(l, r, ['notif', 9, 9, ['pat', lim - 21 + d, 1]], 'notif_limit')
+    # ---- a8. OPEN: AS number / hold time / identifier edges; capability sums 250..256; each capability kind at
+    # its one-octet edge; empty lists; flag / timer edges
+    for asn in (1, 23455, 23456, 23457, 65534, 65535, 65536, 4294967295):
+        for hold in (0, 3, 65535):
+            caps = [('mp', W.IPV4), ('as4', asn)]
+            add(std_caps()[0], std_caps()[1], ['open', asn, hold, 0x0a000001, caps], 'open_fields')
+            if asn <= 65535:     # a speaker without the four-octet capability: the AS travels in the fixed field only
+                add(std_caps()[0], std_caps()[1], ['open', asn, hold, 0x0a000001, [('mp', W.IPV4)]], 'open_fields', 'open_no_as4')
+                add(std_caps()[0], std_caps()[1], ['open', asn, hold, 0x0a000001, []], 'open_fields', 'open_no_as4')
+    for rid in (1, 0x7fffffff, 0xdfffffff):
+        add(std_caps()[0], std_caps()[1], ['open', 65001, 90, rid, [('mp', W.IPV4)]], 'open_fields')
+    for total in range(248, 259):
+        # total capability octets = 6 * k + (2 + n)
+        k = 20
+        n = total - 6 * k - 2
+        caps = [('mp', ALL_FAMILIES[j % 19]) for j in range(k)] + [('unknown', 77, [j % 256 for j in range(n)])]
+        add(std_caps()[0], std_caps()[1], ['open', 65001, 90, 0x0a000001, caps], 'open_cap_sum')
+    for n in (0, 1, 250, 251, 252, 253, 254, 255, 256, 257):
+        add(std_caps()[0], std_caps()[1], ['open', 65001, 90, 0x0a000001, [('unknown', 200, [j % 256 for j in range(n)])]], 'open_cap_value_len')
+    for n in (0, 1, 41, 42, 43):
+        add(std_caps()[0], std_caps()[1], ['open', 65001, 90, 0x0a000001, [('enh', [(W.IPV4, 2)] * n)]], 'open_cap_counts')
+    for n in (0, 1, 62, 63, 64):
+        add(std_caps()[0], std_caps()[1], ['open', 65001, 90, 0x0a000001, [('addpath', [(W.IPV4, 1 + j % 3) for j in range(n)])]], 'open_cap_counts')
+        add(std_caps()[0], std_caps()[1], ['open', 65001, 90, 0x0a000001, [('gr', 15, 4095, [(W.IPV6, 128 * (j % 2)) for j in range(n)])]], 'open_cap_counts')
+    for n in (0, 1, 35, 36, 37):
+        add(std_caps()[0], std_caps()[1], ['open', 65001, 90, 0x0a000001, [('llgr', [(W.IPV4, 128 * (j % 2), [0, 1, 255, 256, 65535, 65536, 16777215][j % 7]) for j in range(n)])]], 'open_cap_counts')
+    for h, d in ((0, 0), (1, 0), (0, 1), (126, 127), (127, 127), (253, 0), (0, 253), (254, 0), (255, 0), (200, 100)):
+        add(std_caps()[0], std_caps()[1], ['open', 65001, 90, 0x0a000001, [('fqdn', [97 + j % 26 for j in range(h)], [65 + j % 26 for j in range(d)])]], 'open_cap_counts')
+    for fl in (0, 1, 8, 15):
+        for t in (0, 1, 4095):
+            add(std_caps()[0], std_caps()[1], ['open', 65001, 90, 0x0a000001, [('gr', fl, t, [(W.IPV4, 0), (W.EVPN, 128)])]], 'open_gr_fields')
+    allcaps = [('mp', W.EVPN), ('rr',), ('enh', [(W.IPV4, 2)]), ('extmsg',), ('gr', 4, 120, []), ('as4', 65001), ('addpath', [(W.LS, 3)]), ('err',),
+               ('llgr', [(W.RTC, 0, 1)]), ('fqdn', [114], [100]), ('unknown', 0, []), ('unknown', 255, [1]), ('unknown', 3, [1, 2])]
+    add(std_caps()[0], std_caps()[1], ['open', 65001, 90, 0x0a000001, allcaps], 'open_every_kind')
+    for c in allcaps:
+        add(std_caps()[0], std_caps()[1], ['open', 65001, 90, 0x0a000001, [c]], 'open_every_kind')
+    # ---- a9. label stacks: every depth up to the one-octet NLRI length (24 * labels (+ 64) + bits <= 255), label
+    # values at both ends, every RD type; announce and withdraw
+    for f, kind, vpn, v6 in ((W.IPV4_MPLS, 'lab4', 0, False), (W.IPV6_MPLS, 'lab6', 0, True), (W.IPV4_VPN, 'vpn4', 64, False), (W.IPV6_VPN, 'vpn6', 64, True)):
+        maxb = 128 if v6 else 32
+        addr = ([32, 1, 13, 184] + [255] * 12) if v6 else [10, 255, 255, 255]
+        for L in range(1, 10):
+            for bits in (255, 254):      # NLRI length exactly 255 / 254 bits
+                m = bits - 24 * L - vpn
+                if 0 <= m <= maxb:
+                    nb = (m + 7) // 8
+                    a = addr[:nb] + [0] * (len(addr) - nb)
+                    if m % 8 and nb: a[nb - 1] &= (0xff << (8 - m % 8)) & 0xff
+                    n = [kind, [[0, 1048575, 16][j % 3] for j in range(L)]] + ([[0, [0, 1, 2][L % 3], 0, 1, 0, 0, 0, L]] if vpn else []) + [m, a]
+                    l, r = caps_pair([f])
+                    add(l, r, ['reach', f, NH6 if v6 else NH4, A0, [['x', [[0, n]]]]], 'label_depth')
+                    add(l, r, ['unreach', f, [['x', [[0, n]]]]], 'label_depth')
+            for m in (0, maxb):
+                if 24 * L + vpn + m <= 255:
+                    nb = (m + 7) // 8
+                    n = [kind, [1048575] * L] + ([[0, L % 3, 0, 1, 0, 0, 0, L]] if vpn else []) + [m, addr[:nb] + [0] * (len(addr) - nb)]
+                    l, r = caps_pair([f], lmode=3, rmode=3)
+                    add(l, r, ['reach', f, NH6 if v6 else NH4, A0, [['x', [[4294967295, n]]]]], 'label_depth')
+                    add(l, r, ['unreach', f, [['x', [[4294967295, n]]]]], 'label_depth')
+    # ---- a10. End-of-RIB / ROUTE-REFRESH / empty updates for every family with RFC 8950 on and off
+    for f in ALL_FAMILIES[:19]:
+        for enh in (False, True):
+            l, r = caps_pair([f, W.IPV4], extnh=enh)
+            add(l, r, ['eor', f], 'eor_every_family')
+            add(l, r, ['eor', W.IPV4], 'eor_every_family')
+    # next hop forms for IPv4 over MP_REACH (RFC 8950 negotiated)
+    for nh in (NH4, NH6, NH6LL):
+        l, r = caps_pair([W.IPV4], extnh=True)
+        add(l, r, ['reach', W.IPV4, nh, A0, [['x', [_v4_32(6)]]]], 'ipv4_over_mp')
+        add(l, r, ['unreach', W.IPV4, [['x', [_v4_32(6)]]]], 'ipv4_over_mp')
+    return cs
+
+def std_caps():
+    return caps_pair([W.IPV4, W.IPV6])
+
+
+# ---- structured NLRI of the families whose encoders the model covers (Flowspec x4, RTC, EVPN, SR Policy x2)
+STRUCT_FAMILIES = (W.IPV4_FS, W.IPV6_FS, W.IPV4_FSVPN, W.IPV6_FSVPN, W.RTC, W.EVPN, W.IPV4_SRP, W.IPV6_SRP, W.IPV4_MUP, W.IPV6_MUP, W.LS)
+RDS = [[0, 0, 253, 232, 0, 0, 0, 100], [0, 1, 192, 0, 2, 1, 0, 7], [0, 2, 0, 1, 0, 0, 0, 9]]
+V6A = [32, 1, 13, 184, 0, 1, 0, 2, 0, 3, 0, 4, 0, 5, 0, 6]
+OPVALS = [0, 1, 255, 256, 65535, 65536, 4294967295, 4294967296, 2 ** 64 - 1]
+
+def ops_list(vals, bits=(0x01, 0x03, 0x45, 0x06)):
+    return [[(bits[k % len(bits)] & 0x4f) | (0x80 if k == len(vals) - 1 else 0), v] for k, v in enumerate(vals)]
+
+def fs_rule(rng, f, i, ncomp=None):
+    v6 = 1 if f in (W.IPV6_FS, W.IPV6_FSVPN) else 0
+    rd = RDS[i % 3] if f in (W.IPV4_FSVPN, W.IPV6_FSVPN) else None
+    comps = []
+    if i % 2 == 0:
+        comps.append(['p', 1, [0, 8, 24, 32][i % 4] if not v6 else [0, 48, 64, 128][i % 4], 0, ([10] + W.be32(i)[1:]) if not v6 else V6A[:13] + W.be32(i)[1:]])
+    types = list(range(3, 14 if v6 else 13))
+    for k in range(ncomp if ncomp is not None else 1 + i % 3):
+        ty = types[(i + 5 * k) % len(types)]
+        comps.append(['o', ty, ops_list([OPVALS[(i + k + j) % len(OPVALS)] for j in range(1 + (i + k) % 3)])])
+    return ['fs', v6, rd, comps]
+
+def fs_sized(f, i, target):
+    """a rule whose body (RD + components) is exactly [target] octets: one port component of 2-octet operators"""
+    v6 = 1 if f in (W.IPV6_FS, W.IPV6_FSVPN) else 0
+    rd = RDS[i % 3] if f in (W.IPV4_FSVPN, W.IPV6_FSVPN) else None
+    rest = target - (8 if rd else 0)
+    comps = []
+    if rest % 2 == 0:       # 1 + 2k is odd: an extra 3-octet operator makes the sum even
+        nops = (rest - 1 - 3) // 2
+        comps.append(['o', 4, ops_list([7] * nops + [300])])
+    else:
+        comps.append(['o', 4, ops_list([(i + k) % 256 for k in range((rest - 1) // 2)])])
+    return ['fs', v6, rd, comps]
+
+def evpn_route(i, k):
+    rd, esi = RDS[i % 3], [(i + j) % 256 for j in range(10)]
+    ip = [[], [10] + W.be32(i)[1:], V6A[:12] + W.be32(i)][i % 3]
+    if k == 1: return ['evpn', 1, rd, esi, [0, i, 4294967295][i % 3], [0, 100 + i, 16777215][i % 3]]
+    if k == 2: return ['evpn', 2, rd, esi, i, [2, 0, 0] + W.be32(i)[1:], ip, (100 + i) % 16777216, None if i % 2 else [0, 16777215, 200][i % 3]]
+    if k == 3: return ['evpn', 3, rd, i, ip or [192, 0, 2, 1]]
+    if k == 4: return ['evpn', 4, rd, esi, ip or V6A]
+    ipp = ip or [10, 1, 0, 0]
+    return ['evpn', 5, rd, esi, i, [0, 8 * len(ipp), 24][i % 3], ipp, [0] * len(ipp) if i % 2 else (ipp[:-1] + [1]), [0, 16777215, 5000][i % 3]]
+
+def mup_route(f, i, k):
+    v6 = f == W.IPV6_MUP
+    w = 16 if v6 else 4
+    addr = (V6A[:12] + W.be32(i)) if v6 else [10] + W.be32(i)[1:]
+    ep = V6A if v6 else [192, 0, 2, 1]
+    rd = RDS[i % 3]
+    pl = [0, 1, 8 * w - 1, 8 * w, 24][i % 5]
+    nb = (pl + 7) // 8
+    pa = addr[:nb] + [0] * (w - nb)
+    if k == 1: return ['mup', 1, rd, pl, pa]
+    if k == 2: return ['mup', 2, rd, addr]
+    if k == 3: return ['mup', 3, rd, pl, pa, [0, i, 4294967295][i % 3], [0, 9, 63, 255][i % 4], ep, None if i % 2 else addr]
+    tb = i % 5
+    teid = (0x01020304 + i) & 0xffffffff
+    teid -= teid % (256 ** (4 - tb))
+    return ['mup', 4, rd, 8 * w + [0, 8, 16, 24, 32][tb] - ([0, 3, 0, 7, 0][i % 5] if tb else 0), ep, teid]
+
+def ls_node_desc(i, shape):
+    b = []
+    if shape & 1: b.append([512, W.be32(65000 + i)])
+    if shape & 2: b.append([513, W.be32(i)])
+    if shape & 4: b.append([514, W.be32(i % 7)])
+    if shape & 8: b.append([515, [(i + k) % 256 for k in range([4, 6, 7, 8][i % 4])]])
+    if shape & 16: b.append([516, [10, 0, (i >> 8) & 255, i & 255]])
+    if shape & 32: b.append([517, W.be32(64512 + i % 100)])
+    return b
+
+def ls_struct(kind, i):
+    """a BGP-LS NLRI value: kind 0 node, 1 link, 2 IPv4 prefix, 3 IPv6 prefix, 4 SRv6 SID, 5 unknown type; [i] varies the
+    descriptors present and the TLV value lengths (0 / 1 / 255 / 256 for unknown TLVs)"""
+    proto, ident = 1 + i % 7, [i, 2 ** 32 + i, 2 ** 64 - 1][i % 3]
+    local = ls_node_desc(i, [1, 9, 15, 63, 8, 0][i % 6])
+    if kind == 0: return ['ls', 1, proto, ident, local]
+    if kind == 1:
+        sel = [1, 2 | 4, 8 | 16, 1 | 32, 63, 0, 64, 128][i % 8]
+        link = []
+        if sel & 1: link.append([258, W.be32(i) + W.be32(i + 1)])
+        if sel & 2: link.append([259, [10, 0, 0, i % 256]])
+        if sel & 4: link.append([260, [10, 0, 1, i % 256]])
+        if sel & 8: link.append([261, [32, 1] + [0] * 13 + [i % 256]])
+        if sel & 16: link.append([262, [32, 1] + [0] * 13 + [(i + 1) % 256]])
+        if sel & 32: link.append([263, sum([W.be16((i + k) % 4096) for k in range(i % 3)], [])])
+        if sel & 64: link.append([9000 + i % 50, [(i + k) % 256 for k in range([0, 1, 255, 256][i % 4])]])
+        if sel & 128: link.append([258, [1, 2, 3]])      # a known type with an unusual length stays opaque
+        return ['ls', 2, proto, ident, local, ls_node_desc(i + 1, [9, 63, 1][i % 3]), link]
+    if kind in (2, 3):
+        sel = [4, 1 | 4, 2 | 4, 7, 4 | 8][i % 5]
+        pfx = []
+        if sel & 1: pfx.append([263, W.be16(i % 4096)])
+        if sel & 2: pfx.append([264, [1 + i % 6]])
+        if sel & 4:
+            maxb = 32 if kind == 2 else 128
+            pl = [0, 1, 8, 24, maxb - 1, maxb][i % 6]
+            addr = ([10, 1, 2, 3] if kind == 2 else [32, 1, 13, 184] + [(i + k) % 256 for k in range(12)])[:(pl + 7) // 8]
+            pfx.append([265, [pl] + addr])
+        if sel & 8: pfx.append([9100, [i % 256]])
+        return ['ls', 3 if kind == 2 else 4, proto, ident, local, pfx]
+    if kind == 4:
+        return ['ls', 6, proto, ident, local, [[(i + k) % 4096, [32, 1, 13, 184] + [(i + k + j) % 256 for j in range(12)]] for k in range(1 + i % 2)]]
+    return ['ls', 0, [0, 5, 7, 900, 65535, 1][i % 6], [(i + 3 * k) % 256 for k in range([0, 5, 8, 30, 300, 4][i % 6])]]
+
+def struct_entry(rng, f, i):
+    if f == W.LS: return ls_struct(i % 6, i)
+    if f in (W.IPV4_MUP, W.IPV6_MUP): return mup_route(f, i, 1 + i % 4)
+    if f in (W.IPV4_FS, W.IPV6_FS, W.IPV4_FSVPN, W.IPV6_FSVPN): return fs_rule(rng, f, i)
+    if f == W.RTC: return ['rtc', i % 3, [0, 65000 + i, 4294967295][i % 3] if i % 3 else 0, (RDS[i % 3][:2] + W.be16(65000) + W.be32(i)) if i % 3 == 2 else []]
+    if f == W.EVPN: return evpn_route(i, 1 + i % 5)
+    if f == W.IPV4_SRP: return ['srp', i, 100 + i % 3, [10] + W.be32(i)[1:]]
+    return ['srp', i, [0, 4294967295][i % 2], V6A[:12] + W.be32(i)]
+
+STRUCT_BULK = {W.EVPN: (9, 13), W.IPV4_FS: (10,), W.IPV6_FSVPN: (14,), W.RTC: (11,), W.IPV4_SRP: (12,), W.IPV4_MUP: (15,), W.LS: (16,)}
+
+def struct_entries(rng, f, n):
+    if not n:
+        return []
+    k = min(n, rng.randint(1, 6) if f in STRUCT_BULK else min(n, 120))
+    start = rng.randint(0, 50000)
+    segs = [['x', [[(start + j) % 7, struct_entry(rng, f, start + j)] for j in range(k)]]]
+    if n - k > 0 and f in STRUCT_BULK:
+        segs.append(['bulk', rng.choice(STRUCT_BULK[f]), n - k, start])
+    return segs
+
+def struct_audit_cases(rng):
+    cs = []
+    def add(l, r, m, *tags):
+        cs.append(mk(l, r, m, ['audit'] + list(tags)))
+    def both(f, entries, *tags, ext=(True, True), ap=0, wd=True):
+        l, r = caps_pair([f, W.IPV4], lmode=ap, rmode=ap, ext=ext)
+        nh = None if f in (W.IPV4_FS, W.IPV6_FS, W.IPV4_FSVPN, W.IPV6_FSVPN) else (NH4 if (f >> 16) == 1 else NH6)
+        if f == W.EVPN: nh = NH4
+        add(l, r, ['reach', f, nh, A0, [['x', entries]]], *tags)
+        if wd: add(l, r, ['unreach', f, [['x', entries]]], *tags)
+    FS = (W.IPV4_FS, W.IPV6_FS, W.IPV4_FSVPN, W.IPV6_FSVPN)
+    for f in FS:
+        v6 = 1 if f in (W.IPV6_FS, W.IPV6_FSVPN) else 0
+        rd = RDS[1] if f in (W.IPV4_FSVPN, W.IPV6_FSVPN) else None
+        # every component type, alone; every operator value width on both sides of its switch; flag bits
+        for ty in range(3, 14 if v6 else 13):
+            both(f, [[0, ['fs', v6, rd, [['o', ty, ops_list(OPVALS)]]]]], 'fs_every_component')
+        for v in OPVALS:
+            both(f, [[0, ['fs', v6, rd, [['o', 5, ops_list([v])]]]]], 'fs_op_value_width')
+        for b in (0x00, 0x01, 0x02, 0x04, 0x07, 0x40, 0x47, 0x0f):
+            both(f, [[0, ['fs', v6, rd, [['o', 9, [[b, 1], [b | 0x80, 2]]]]]]], 'fs_op_bits')
+        # prefix components: both types, every octet boundary of the length
+        for ty in (1, 2):
+            for m in ((0, 1, 7, 8, 9, 16, 24, 25, 31, 32) if not v6 else (0, 1, 8, 63, 64, 65, 120, 121, 127, 128)):
+                a = ([203, 0, 113, 255] if not v6 else [32, 1, 13, 184] + [255] * 12)
+                nb = (m + 7) // 8
+                a = a[:nb] + [0] * (len(a) - nb)
+                both(f, [[0, ['fs', v6, rd, [['p', ty, m, 0, a], ['o', 3, ops_list([6])]]]]], 'fs_prefix_lengths')
+        both(f, [[0, ['fs', v6, rd, []]]], 'fs_empty_rule')
+        both(f, [[0, ['fs', v6, rd, [['p', 1, 0, 0, [0] * (16 if v6 else 4)], ['p', 2, 8, 0, [10] + [0] * (15 if v6 else 3)]] +
+                              [['o', ty, ops_list([ty])] for ty in range(3, 14 if v6 else 13)]]]], 'fs_all_components')
+        # rule body sizes on both sides of the one/two octet length prefix and of its 12-bit limit
+        for target in (237, 238, 239, 240, 241, 242, 243, 255, 256, 257, 4094, 4095):
+            both(f, [[0, fs_sized(f, target, target)], [0, fs_sized(f, target + 1, 12)]], 'fs_len_switch_struct')
+        for ap in (0, 3):
+            both(f, [[j + 1, fs_rule(rng, f, j)] for j in range(12)], 'fs_mixed', ap=ap, ext=(False, False))
+    if True:
+        v6rule = lambda off: ['fs', 1, None, [['p', 1, 64, off, V6A[:8] + [0] * 8]]]
+        for off in (1, 8, 63):
+            both(W.IPV6_FS, [[0, v6rule(off)]], 'fs_v6_offset')
+        # RFC 8956 3.1: the pattern is the length - offset bits after the offset (its example: ::1234:5678:9a00:0/104
+        # offset 64 is 01 68 40 12 34 56 78 9a); offset < length unless both are 0; a component follows the prefix so
+        # that a reader that sizes the pattern differently loses step
+        EX = [0] * 8 + [0x12, 0x34, 0x56, 0x78, 0x9a, 0, 0, 0]
+        for ln, off, addr in ((104, 64, EX), (128, 64, EX[:15] + [1]), (128, 127, [0] * 15 + [1]), (128, 120, [0] * 15 + [0xa5]), (65, 64, [0] * 8 + [0x80] + [0] * 7),
+                              (72, 7, [1, 0x23] + [0] * 14), (64, 64, EX), (0, 0, [0] * 16), (0, 1, [0] * 16), (104, 0, EX)):
+            for ty in (1, 2):
+                both(W.IPV6_FS, [[0, ['fs', 1, None, [['p', ty, ln, off, addr], ['o', 3, [[0x81, 6]]]]]]], 'fs_v6_offset', 'fs_v6_offset_%d_%d' % (ln, off))
+        both(W.IPV6_FSVPN, [[0, ['fs', 1, RDS[0], [['p', 1, 104, 64, EX], ['o', 3, [[0x81, 6]]]]]]], 'fs_v6_offset')
+    # RTC: the three forms, AS numbers at the edges
+    for kind in (0, 1, 2):
+        for asn in (0, 65535, 65536, 4294967295):
+            both(W.RTC, [[0, ['rtc', kind, asn if kind else 0, [0, 2, 253, 232, 0, 0, 0, 1] if kind == 2 else []]]], 'rtc_forms')
+    both(W.RTC, [[j, struct_entry(rng, W.RTC, j)] for j in range(9)], 'rtc_forms', ap=3)
+    # EVPN: every route type x address form x optional label, field edges
+    for k in range(1, 6):
+        for i in range(6):
+            both(W.EVPN, [[0, evpn_route(i, k)]], 'evpn_every_type')
+        both(W.EVPN, [[j + 1, evpn_route(j, k)] for j in range(6)], 'evpn_every_type', ap=3, ext=(False, False))
+    for rd in RDS:
+        both(W.EVPN, [[0, ['evpn', 3, rd, 0, [192, 0, 2, 1]]]], 'evpn_rd_types')
+    for plen4, plen6 in ((0, 0), (1, 1), (31, 127), (32, 128)):
+        both(W.EVPN, [[0, ['evpn', 5, RDS[0], [0] * 10, 0, plen4, [10, 0, 0, 0], [0, 0, 0, 0], 0]],
+                      [0, ['evpn', 5, RDS[0], [255] * 10, 4294967295, plen6, V6A, V6A, 16777215]]], 'evpn_type5_prefix_len')
+    # SR Policy
+    for d, c in ((0, 0), (4294967295, 4294967295), (1, 100)):
+        both(W.IPV4_SRP, [[0, ['srp', d, c, [192, 0, 2, 1]]]], 'srp_forms')
+        both(W.IPV6_SRP, [[0, ['srp', d, c, V6A]]], 'srp_forms')
+    # BGP-LS (still opaque in the model: framing proved, inner octets differential): every NLRI type with every
+    # descriptor TLV, TLV value lengths 0 / 1 / 255 / 256, prefix lengths at the octet boundaries
+    for kind in range(5, 10):
+        for i in range(0, 42):
+            l, r = caps_pair([W.LS, W.IPV4])
+            es = [['rawbulk', W.LS, kind, 1, i]]
+            # (LS NLRI are modelled as values now -- ls_struct_every_type below; the octets-in path keeps every
+            # shape once, alternating announce / withdraw)
+            if i % 2 == 0: add(l, r, ['reach', W.LS, NH4, A0, es], 'ls_every_nlri_type')
+            else: add(l, r, ['unreach', W.LS, es], 'ls_every_nlri_type')
+        l, r = caps_pair([W.LS, W.IPV4], lmode=3, rmode=3, ext=(False, False))
+        add(l, r, ['reach', W.LS, NH6, A0, [['rawbulk', W.LS, kind, 60, 100]]], 'ls_every_nlri_type')
+    # BGP-LS as values: every NLRI type x every descriptor, unknown TLV lengths 0 / 1 / 255 / 256, identifiers past 32 bits
+    for kind in range(6):
+        for i in range(0, 48):
+            both(W.LS, [[0, ls_struct(kind, i)]], 'ls_struct_every_type', wd=(i % 3 == 0))
+        both(W.LS, [[j + 1, ls_struct(kind, j)] for j in range(24)], 'ls_struct_every_type', ap=3, ext=(False, False))
+    # MUP: every route type x address family, prefix length / TEID length edges, optional source address
+    for f in (W.IPV4_MUP, W.IPV6_MUP):
+        for k in range(1, 5):
+            for i in range(10):
+                both(f, [[0, mup_route(f, i, k)]], 'mup_every_type')
+            both(f, [[j + 1, mup_route(f, j, k)] for j in range(10)], 'mup_every_type', ap=3, ext=(False, False))
+    # splitting: several frames of structured entries at 4096
+    for f, kind in ((W.EVPN, 9), (W.EVPN, 13), (W.IPV4_FS, 10), (W.IPV6_FSVPN, 14), (W.RTC, 11), (W.IPV4_SRP, 12), (W.IPV4_MUP, 15), (W.LS, 16)):
+        for ap in (0, 3):
+            l, r = caps_pair([f, W.IPV4], lmode=ap, rmode=ap, ext=(False, False))
+            nh = None if f in FS else NH4
+            for n in (400, 401):
+                add(l, r, ['reach', f, nh, A0 + [_opaque(ap + n % 2)], [['bulk', kind, n, 7]]], 'struct_split')
+                add(l, r, ['unreach', f, [['bulk', kind, n, 7]]], 'struct_split')
+    return cs
